@@ -317,6 +317,11 @@ struct Bystander {
     script: Vec<u8>,
     /// Its client never reads and the buffer holds four bytes.
     stalled: bool,
+    /// It talks while the main connection does: a script of its own (queries
+    /// and erroneous units like the main one's), delivered in fragments
+    /// interleaved with everything else. Static class only.
+    active: bool,
+    sent: usize,
     last_notify_mark: Option<usize>,
 }
 
@@ -372,6 +377,7 @@ const A_CLIENT_EOF: usize = 8;
 const A_TOGGLE_READY: usize = 9;
 const A_WAIT: usize = 10;
 const A_IO_ERROR: usize = 11;
+const A_BY_DELIVER: usize = 12;
 
 impl C08 {
     fn gen_script(t: &mut Tape, src: &VersionedSource, cfg: &Cfg, kind: RunKind, tier: Tier) -> Vec<Unit> {
@@ -380,6 +386,9 @@ impl C08 {
         let mut units = Vec::new();
         let n = match kind {
             RunKind::Sweep(_) => 1,
+            // now and then a client that pipelines many queries (hundreds of
+            // octets, far beyond any fixed-size receive buffer of a few PDUs)
+            RunKind::Random if t.chance(1, 16) => 10 + t.choose(31) as usize,
             RunKind::Random if tier == Tier::Thorough => 1 + t.weighted(&[3, 3, 2, 1, 1, 1, 1, 1, 1, 1, 1, 1]),
             RunKind::Random => 1 + t.weighted(&[3, 3, 2, 1, 1, 1]),
         };
@@ -556,14 +565,24 @@ impl C08 {
         let mut bystander = if matches!(kind, RunKind::Random) && ctx.chance(1, 4) {
             let stalled = ctx.chance(1, 4);
             let version = ctx.choose(3) as u8;
-            let script = if !stalled && ctx.chance(3, 4) { WirePdu::ResetQuery { v: version }.encode() } else { Vec::new() };
+            // Two connections talking at the same time: only with a source that
+            // never changes, so that every answer is a function of its query.
+            let active = !stalled && !cfg.dynamic && ctx.chance(1, 2);
+            let script = if active {
+                let by_cfg = Cfg { version, ..cfg };
+                let mut t = ctx.tape.lock().unwrap();
+                Self::gen_script(&mut t, &source, &by_cfg, kind, tier).iter().flat_map(|u| u.bytes()).collect()
+            } else if !stalled && ctx.chance(3, 4) { WirePdu::ResetQuery { v: version }.encode() } else { Vec::new() };
+            if active {
+                counters.bump("fault_second_connection_active");
+            }
             let by = Bystander {
                 c2s: new_pipe("c2->s", true, usize::MAX),
                 s2c: new_pipe("s->c2", true, if stalled { 4 } else { usize::MAX }),
-                version, script, stalled, last_notify_mark: None,
+                version, script, stalled, active, sent: 0, last_notify_mark: None,
             };
             counters.bump(if stalled { "fault_second_connection_stalled" } else { "fault_second_connection" });
-            ctx.ev(12, version as u64, || format!("second connection: v{} stalled={} handshake={}", version, stalled, !by.script.is_empty()));
+            ctx.ev(12, version as u64, || format!("second connection: v{} stalled={} handshake={} active={} script={}", version, stalled, !by.script.is_empty() && !active, active, if active { hex(&by.script) } else { String::new() }));
             Some(by)
         } else {
             None
@@ -591,7 +610,7 @@ impl C08 {
         // The second connection's query is answered before the main client
         // sends anything, so every source call so far is its own.
         if let Some(by) = bystander.as_ref() {
-            if !by.script.is_empty() {
+            if !by.script.is_empty() && !by.active {
                 by.c2s.lock().unwrap().inject(&by.script);
                 let mut n = 0;
                 loop {
@@ -607,9 +626,10 @@ impl C08 {
         // ---- schedule ------------------------------------------------------
         let mut sent = 0usize;
         let mut partial_header_notifies = 0u64;
-        let weights: [u64; 12] = match kind {
+        let by_active = bystander.as_ref().map(|b| b.active).unwrap_or(false);
+        let weights: [u64; 13] = match kind {
             // The sweep drives the grid itself (below).
-            RunKind::Sweep(_) => [1, 0, 0, 0, 0, 0, 0, 0, 0, 0, 0, 0],
+            RunKind::Sweep(_) => [1, 0, 0, 0, 0, 0, 0, 0, 0, 0, 0, 0, 0],
             RunKind::Random => [
                 1,
                 6,
@@ -623,6 +643,7 @@ impl C08 {
                 if cfg.dynamic && ctx.chance(1, 3) { 1 } else { 0 },
                 if ctx.chance(1, 3) { 1 } else { 0 },
                 if ctx.chance(1, 6) { 1 } else { 0 },
+                if by_active { 6 } else { 0 },
             ],
         };
         let mut sender_gone = false;
@@ -870,6 +891,22 @@ impl C08 {
                             }
                         }
                     }
+                    A_BY_DELIVER => {
+                        if let Some(by) = bystander.as_mut() {
+                            if by.sent < by.script.len() {
+                                let rem = by.script.len() - by.sent;
+                                let n = match ctx.choose(4) {
+                                    0 => rem,
+                                    1 => 1,
+                                    2 => 1 + ctx.choose(rem.min(7) as u64) as usize,
+                                    _ => 1 + ctx.choose(rem.min(13) as u64) as usize,
+                                };
+                                by.c2s.lock().unwrap().inject(&by.script[by.sent..by.sent + n]);
+                                ctx.ev(15, n as u64, || format!("second connection: deliver {} bytes: {}", n, hex(&by.script[by.sent..by.sent + n])));
+                                by.sent += n;
+                            }
+                        }
+                    }
                     A_WAIT => {
                         // simulated time passes (nothing else happens): a
                         // connection's answers must not depend on WHEN the
@@ -890,6 +927,13 @@ impl C08 {
         if sent < script.len() {
             c2s.lock().unwrap().inject(&script[sent..]);
             ctx.ev(2, (script.len() - sent) as u64, || format!("deliver remaining {} bytes", script.len() - sent));
+        }
+        if let Some(by) = bystander.as_mut() {
+            if by.active && by.sent < by.script.len() {
+                by.c2s.lock().unwrap().inject(&by.script[by.sent..]);
+                ctx.ev(15, (by.script.len() - by.sent) as u64, || format!("second connection: deliver remaining {} bytes", by.script.len() - by.sent));
+                by.sent = by.script.len();
+            }
         }
         let mut quiet = 0;
         let mut rounds = 0u64;
@@ -1250,6 +1294,91 @@ impl C08 {
         };
         if io_fault && !main_in.io_fault {
             counters.bump("probe_armed_io_error_never_reached_the_server");
+        }
+        // Two connections that talked at the same time share the log of source
+        // calls. Which call was made for which connection is not observable
+        // without relying on how the server hands its source to connections, so
+        // the run holds if SOME attribution of the Full/Diff calls explains both
+        // outputs (the source never changes in these runs, so timing and
+        // readiness calls carry no information and go to both). The split by
+        // source clone is tried first; if it fails all others are tried.
+        if let Some(by) = bystander.as_ref().filter(|b| b.active) {
+            let by_out = by.s2c.lock().unwrap().written.clone();
+            let (by_pdus, by_used) = wire::parse_stream(&by_out);
+            ctx.ev(9, by_pdus.len() as u64, || {
+                format!("second connection output: {}", by_pdus.iter().map(|p| wire::describe(&p.1)).collect::<Vec<_>>().join(", "))
+            });
+            let by_in = JudgeIn {
+                script: &by.script, output: &by_out, pdus: &by_pdus, used: by_used, version: by.version, notified: &notified,
+                never_ready_seen, partial_header_notifies: 0, last_notify_mark: by.last_notify_mark, io_fault: false,
+            };
+            let tag = |v: Violation, which: &str| Violation::new(&v.class, "two-active-connections", format!("{} of two connections talking at the same time (main v{}, second v{}): {}", which, cfg.version, by.version, v.detail));
+            let data_pos: Vec<usize> = conn_calls.iter().enumerate().filter(|(_, c)| matches!(c.kind, CallKind::Full(_) | CallKind::Diff(..))).map(|(i, _)| i).collect();
+            let n = data_pos.len();
+            if n >= 128 {
+                counters.bump("probe_two_active_connections_unattributable");
+                return Ok(());
+            }
+            let try_mask = |mask: u128| -> Result<((ModelOut, usize, u64), (usize, u64)), Violation> {
+                let pick = |want: u128| -> Vec<&SourceCall> {
+                    conn_calls.iter().enumerate().filter(|(i, _)| match data_pos.iter().position(|p| p == i) {
+                        Some(k) => (mask >> k) & 1 == want,
+                        None => true,
+                    }).map(|(_, c)| *c).collect()
+                };
+                let a = decide(&main_in, &build_answers(&pick(1))).map_err(|v| tag(v, "first"))?;
+                let (_, b_idx, b_not) = decide(&by_in, &build_answers(&pick(0))).map_err(|v| tag(v, "second"))?;
+                Ok((a, (b_idx, b_not)))
+            };
+            let mut ids: Vec<u64> = Vec::new();
+            for p in &data_pos {
+                let id = conn_calls[*p].clone_id as u64;
+                if !ids.contains(&id) { ids.push(id); }
+            }
+            let mut candidates: Vec<u128> = ids.iter().map(|id| {
+                data_pos.iter().enumerate().fold(0u128, |m, (k, p)| if conn_calls[*p].clone_id as u64 == *id { m | (1 << k) } else { m })
+            }).collect();
+            let all = if n >= 128 { u128::MAX } else { (1u128 << n) - 1 };
+            let complements: Vec<u128> = candidates.iter().map(|m| !m & all).collect();
+            for c in complements {
+                if !candidates.contains(&c) { candidates.push(c); }
+            }
+            if n == 0 && candidates.is_empty() { candidates.push(0); }
+            let mut found = None;
+            let mut first_err = None;
+            for mask in candidates.iter().copied() {
+                match try_mask(mask) {
+                    Ok(r) => { found = Some(r); break; }
+                    Err(v) => { if first_err.is_none() { first_err = Some(v); } }
+                }
+            }
+            if found.is_none() && n <= 12 {
+                counters.bump("probe_two_connections_split_by_source_clone_failed");
+                for mask in 0..(1u128 << n) {
+                    if candidates.contains(&mask) { continue; }
+                    match try_mask(mask) {
+                        Ok(r) => { found = Some(r); break; }
+                        Err(v) => { if first_err.is_none() { first_err = Some(v); } }
+                    }
+                }
+            }
+            match found {
+                Some(((m, idx, notifies_seen), (by_idx, by_notifies))) => {
+                    counters.bump("probe_two_active_connections_judged");
+                    counters.add("probe_second_connection_responses_checked", by_idx as u64);
+                    counters.add("probe_second_connection_notifies_seen", by_notifies);
+                    counters.add("probe_serial_notifies_seen", notifies_seen);
+                    counters.add("responses_checked", (idx + by_idx) as u64);
+                    out.nontrivial = idx + by_idx > 0 || m.ends;
+                    return Ok(());
+                }
+                None if n > 12 => {
+                    // too many calls to try every attribution: no verdict
+                    counters.bump("probe_two_active_connections_unattributable");
+                    return Ok(());
+                }
+                None => return Err(first_err.expect("no attribution tried")),
+            }
         }
         let (m, idx, notifies_seen) = decide(&main_in, &answers)?;
         // The second connection: its own handshake answered, every later
